@@ -525,6 +525,262 @@ def evaluate_bundle(rec: Any, case: dict[str, Any]) -> dict[str, Any]:
     return {"bundle": bundle, "validate_signatures": vs, "check_proof_of_possession": pop, "records": records, "tbs": tbs}
 
 
+# ---- whole requests: keys that appear in several bundles ---------------------------------------------------------------
+
+STEP = 10 * lib.DAY_US
+
+
+def declared_algorithms(ks: list[dict[str, Any]]) -> set[Any]:
+    from kskm.common.data import AlgorithmDNSSEC, AlgorithmPolicyECDSA, AlgorithmPolicyRSA
+
+    out = set()
+    for k in ks:
+        blob = base64.b64decode(k["pk"])
+        if k["alg"] in (8, 10):
+            elen = blob[0]
+            out.add(AlgorithmPolicyRSA(bits=(len(blob) - 1 - elen) * 8, exponent=int.from_bytes(blob[1 : 1 + elen], "big"), algorithm=AlgorithmDNSSEC(k["alg"])))
+        else:
+            out.add(AlgorithmPolicyECDSA(bits=256 if k["alg"] == 13 else 384, algorithm=AlgorithmDNSSEC(k["alg"])))
+    return out
+
+
+def build_request(bundles: list[dict[str, Any]], flag: bool = True, rid: str = "req") -> tuple[Any, Any]:
+    """The repo Request (real sets) of a list of bundle cases, and a policy under which proof of possession is the only rule
+    that can object (key rules on and satisfied by honest material; calendar / count-per-slot rules off)."""
+    from kskm.common.config_misc import RequestPolicy
+    from kskm.common.data import SignaturePolicy
+    from kskm.ksr.data import Request
+
+    bs = [mk_bundle(dict(c, as_set=True), bid=f"b{bi}") for bi, c in enumerate(bundles)]
+    allk = [k for c in bundles for k in c["keys"]]
+    req = Request(id=rid, serial=1, domain=".", timestamp=None, zsk_policy=SignaturePolicy(algorithms=declared_algorithms(allk)), bundles=bs)
+    policy = RequestPolicy(
+        num_bundles=len(bs), validate_signatures=flag, keys_match_zsk_policy=True, enable_unsupported_ecdsa=True, check_cycle_length=False,
+        check_bundle_overlap=False, signature_algorithms_match_zsk_policy=False, signature_validity_match_zsk_policy=False,
+        check_keys_match_ksk_operator_policy=False, signature_check_expire_horizon=False, check_bundle_intervals=False,
+    )
+    return req, policy
+
+
+def roll_layouts(nb: int, r: Any) -> list[tuple[str, list[list[int]]]]:
+    """(name, key indices per bundle): which of the request's keys each bundle holds"""
+    out = [
+        ("zsk-roll", [[0, 1]] + [[1]] * (nb - 2) + [[1, 2]]),  # outgoing + current, current alone, current + incoming
+        ("same-two-throughout", [[0, 1]] * nb),
+        ("sliding-window", [[i * 3 // nb, i * 3 // nb + 1] for i in range(nb)]),  # two of four keys, the window moves on
+    ]
+    if nb <= 3:
+        out.append(("three-throughout", [[0, 1, 2]] * nb))
+    rnd = []
+    for i in range(nb):
+        cnt = r.choice([1, 2, 2, 3])
+        rnd.append(sorted(r.sample(range(4), cnt)))
+    out.append(("random", rnd))
+    return out
+
+
+def honest_request(members: list[tuple[Any, int]], layout: list[list[int]], names: list[str] | None = None) -> list[dict[str, Any]]:
+    """bundle cases: bundle i holds the keys layout[i] (one identifier per key throughout), incepts at INC + i * 10 d, and every
+    key of the bundle signs the bundle's whole key set with the bundle's own times"""
+    import keys as fx
+
+    names = names or [f"zsk-{'cadb'[i]}" for i in range(len(members))]
+    specs = [keyspec(fx.make_zsk(tk, alg, names[i], ttl=172800)) for i, (tk, alg) in enumerate(members)]
+    out = []
+    for bi, idx in enumerate(layout):
+        ks = [dict(specs[i]) for i in idx]
+        inc, exp = INC + bi * STEP, EXP + bi * STEP
+        out.append({"keys": ks, "sigs": [sign(members[i][0], specs[i], ks, inc=inc, exp=exp) for i in idx], "inc": inc, "exp": exp, "members": list(idx)})
+    return out
+
+
+def clone_request(bundles: list[dict[str, Any]]) -> list[dict[str, Any]]:
+    return [dict(clone(b), inc=b["inc"], exp=b["exp"], members=list(b["members"])) for b in bundles]
+
+
+def tampered_requests(r: Any, bundles: list[dict[str, Any]], members: list[tuple[Any, int]], tier: str) -> list[tuple[str, int, int, list[dict[str, Any]]]]:
+    """(kind, bundle position, key index, request): ONE signature of ONE key in ONE bundle is missing / misattributed / altered /
+    taken from elsewhere; everything else stays honest."""
+    out = []
+    nb = len(bundles)
+    positions = list(range(nb)) if (tier == "thorough" or nb <= 4) else sorted({0, 1, nb // 2, nb - 2, nb - 1})
+    for b in positions:
+        for slot, ki in enumerate(bundles[b]["members"]):
+            ident = bundles[b]["keys"][slot]["id"]
+            si = next(i for i, sg in enumerate(bundles[b]["sigs"]) if sg["id"] == ident)
+
+            def variant() -> tuple[list[dict[str, Any]], dict[str, Any]]:
+                c = clone_request(bundles)
+                return c, c[b]["sigs"][si]
+
+            c, sg = variant()
+            del c[b]["sigs"][si]
+            out.append(("omit", b, ki, c))
+            c, sg = variant()
+            sg["sig"] = flip(sg["sig"], r.randrange(len(base64.b64decode(sg["sig"])) * 8))
+            out.append(("sig-bit", b, ki, c))
+            c, sg = variant()
+            sg["id"] = "nobody"
+            out.append(("misattributed-unknown", b, ki, c))
+            if len(bundles[b]["keys"]) >= 2:
+                c, sg = variant()
+                sg["id"] = next(k["id"] for k in bundles[b]["keys"] if k["id"] != ident)
+                out.append(("misattributed-to-other-key", b, ki, c))
+            elsewhere = [b2 for b2 in range(nb) if b2 != b and ki in bundles[b2]["members"]]
+            if elsewhere:
+                # the same key's (valid) signature from ANOTHER bundle, earlier one preferred: other times, possibly another key set
+                b2 = max([x for x in elsewhere if x < b], default=elsewhere[0])
+                c, sg = variant()
+                c[b]["sigs"][si] = dict(next(x for x in bundles[b2]["sigs"] if x["id"] == ident))
+                out.append((f"signature-from-bundle-{'earlier' if b2 < b else 'later'}", b, ki, c))
+            other = next((j for j in range(len(members)) if j != ki and members[j][1] == members[ki][1]), None)
+            if other is not None:
+                # made by ANOTHER key's private half, carrying this key's identifier and tag
+                c, sg = variant()
+                forged = sign(members[other][0], bundles[b]["keys"][slot], bundles[b]["keys"], inc=bundles[b]["inc"], exp=bundles[b]["exp"])
+                c[b]["sigs"][si] = forged
+                out.append(("signed-by-another-key", b, ki, c))
+    return out
+
+
+def strip_request(bundles: list[dict[str, Any]]) -> list[dict[str, Any]]:
+    return [{"keys": b["keys"], "sigs": b["sigs"], "inc": b["inc"], "exp": b["exp"]} for b in bundles]
+
+
+def evaluate_request(rec: Any, bundles: list[dict[str, Any]], flag: bool = True) -> dict[str, Any]:
+    """/repo on a whole request: validate_request and check_proof_of_possession, with the verifier's answers recorded"""
+    from kskm.ksr.validate import validate_request
+    from kskm.ksr.verify_bundles import check_proof_of_possession
+
+    req, policy = build_request(bundles, flag)
+    rec.take()
+    vr = run_impl(lambda: validate_request(req, policy))
+    pop = run_impl(lambda: check_proof_of_possession(req, policy, _log))
+    return {"validate_request": vr, "check_proof_of_possession": pop, "records": dedupe(rec.take()), "req": req, "policy": policy}
+
+
+def request_lines(ev: dict[str, Any]) -> list[dict[str, Any]]:
+    rj, pj = request_j(ev["req"]), request_policy_j(ev["policy"])
+    return [
+        {"op": "validate_request", "request": rj, "policy": pj, "now": 0, "verify": ev["records"]},
+        {"op": "ksr_check", "check": "check_proof_of_possession", "request": rj, "policy": pj, "now": 0, "verify": ev["records"]},
+    ]
+
+
+def roll_stream(r: Any, tier: str, pool: dict[str, list[tuple[Any, int]]]) -> list[tuple[str, list[dict[str, Any]], bool, dict[str, Any]]]:
+    """(tag, request, expected accept, facts)"""
+    out = []
+    sizes = [2, 3, 4, 9, r.choice([5, 6, 7, 8])] if tier == "quick" else list(range(2, 10))
+    for nb in sizes:
+        for li, (lname, layout) in enumerate(roll_layouts(nb, r)):
+            if (nb + li) % 4 == 3:
+                e1, e2 = r.sample(pool["ec"], 2)
+                members = [r.choice(pool["rsa1024"]), e1, r.choice(pool["rsa2048"]), e2]
+                mname = "mixed"
+            elif (nb + li) % 4 == 1 and nb <= 4:
+                members = [(tk, 10) for tk, _ in r.sample(pool["rsa1024"], 4)]
+                mname = "rsa1024-sha512"
+            else:
+                members = r.sample(pool["rsa1024"], 4)
+                mname = "rsa1024"
+            base = honest_request(members, layout)
+            plan = f"{lname}/{nb}/{mname}"
+            out.append((f"roll:honest|{plan}", strip_request(base), True, {"nb": nb}))
+            shuffled = clone_request(base)
+            for bcase in shuffled:
+                r.shuffle(bcase["keys"])
+                r.shuffle(bcase["sigs"])
+            out.append((f"roll:honest:shuffled|{plan}", strip_request(shuffled), True, {"nb": nb}))
+            for kind, b, ki, c in tampered_requests(r, base, members, tier):
+                earlier = any(ki in base[b2]["members"] for b2 in range(b))
+                later = any(ki in base[b2]["members"] for b2 in range(b + 1, nb))
+                facts = {"nb": nb, "bundle": b, "key": ki, "same_key_signed_correctly_earlier": earlier, "same_key_signs_later": later, "bundle_holds_other_keys_too": len(base[b]["keys"]) >= 2}
+                out.append((f"roll:{kind}:b{b}of{nb}:k{ki}|{plan}", strip_request(c), False, facts))
+    return out
+
+
+# ---- state carried between requests ------------------------------------------------------------------------------------
+
+
+def pair_stream(r: Any, tier: str, pool: dict[str, list[tuple[Any, int]]]) -> list[tuple[str, list[dict[str, Any]], bool, list[dict[str, Any]], bool]]:
+    """(tag, request A, A accepted?, request B, B accepted?) — A then B are validated in one process"""
+    import keys as fx
+
+    out = []
+    rounds = 1 if tier == "quick" else 4
+    for rd in range(rounds):
+        layout = [[0, 1], [1], [1, 2]] if rd % 2 == 0 else [[0, 1], [0, 1]]
+        ks = r.sample(pool["rsa1024"], 6)
+        K, L = ks[:3], ks[3:]
+        A = honest_request(K, layout)
+        hon = strip_request(A)
+        last = len(layout) - 1
+        # 1. B re-uses A's identifiers and keys; the signature of a key that signed throughout A is missing in B's last bundle
+        c = clone_request(A)
+        ident = c[last]["keys"][0]["id"]
+        c[last]["sigs"] = [sg for sg in c[last]["sigs"] if sg["id"] != ident]
+        out.append((f"pair:B-lacks-a-signature-A-had:{rd}", hon, True, strip_request(c), False))
+        # 2. the same identifiers denote OTHER keys in B, honestly signed by those
+        Bother = strip_request(honest_request(L, layout))
+        out.append((f"pair:B-same-identifiers-other-keys-honest:{rd}", hon, True, Bother, True))
+        out.append((f"pair:B-same-identifiers-other-keys-honest:reverse:{rd}", Bother, True, hon, True))
+        # 3. A's keys, identifiers and tags; the signatures are made by OTHER private keys
+        c = clone_request(A)
+        for bcase in c:
+            bcase["sigs"] = [sign(L[i][0], bcase["keys"][slot], bcase["keys"], inc=bcase["inc"], exp=bcase["exp"]) for slot, i in enumerate(bcase["members"])]
+        out.append((f"pair:B-signed-by-other-private-keys:{rd}", hon, True, strip_request(c), False))
+        # 4. a refused request must not poison an honest one
+        c = clone_request(A)
+        c[0]["sigs"][0]["sig"] = flip(c[0]["sigs"][0]["sig"], 77)
+        out.append((f"pair:A-tampered-B-honest:{rd}", strip_request(c), False, hon, True))
+        c = clone_request(A)
+        del c[last]["sigs"][0]
+        out.append((f"pair:A-lacks-a-signature-B-honest:{rd}", strip_request(c), False, hon, True))
+        # 5. an identifier of A denotes a STRANGER key with the SAME key tag in B (public material only); the signature is still made
+        #    by A's key: nobody proved possession of the stranger
+        c = clone_request(A)
+        victim = A[last]["keys"][0]
+        stranger_pk = fx.craft_public_key_with_tag(victim["tag"], 256, victim["alg"], r, n_len=128)  # 1024 bit, e = 65537
+        for bcase in c:
+            for k in bcase["keys"]:
+                if k["id"] == victim["id"]:
+                    k["pk"] = base64.b64encode(stranger_pk).decode()
+        for bcase in c:
+            bcase["sigs"] = [sign(K[i][0], bcase["keys"][slot], bcase["keys"], inc=bcase["inc"], exp=bcase["exp"]) for slot, i in enumerate(bcase["members"])]
+        out.append((f"pair:B-identifier-denotes-same-tag-stranger-signed-by-A's-key:{rd}", hon, True, strip_request(c), False))
+        out.append((f"pair:B-identifier-denotes-same-tag-stranger-signed-by-A's-key:reverse:{rd}", strip_request(c), False, hon, True))
+        # 6. the very same request again
+        out.append((f"pair:B-equals-A:{rd}", hon, True, hon, True))
+    return out
+
+
+def fresh_eval_start(bundles: list[dict[str, Any]], flag: bool = True) -> Any:
+    """validate request B in a FRESH process (this file run as a script; the same /repo tree through KSKM_REPO)"""
+    proc = subprocess.Popen([sys.executable, os.path.abspath(__file__), "--fresh-eval"], stdin=subprocess.PIPE, stdout=subprocess.PIPE, stderr=subprocess.PIPE)
+    assert proc.stdin is not None
+    proc.stdin.write(json.dumps({"bundles": bundles, "flag": flag}).encode())
+    proc.stdin.close()
+    return proc
+
+
+def fresh_eval_result(proc: Any) -> Any:
+    out = proc.stdout.read()
+    err = proc.stderr.read()
+    rc = proc.wait(timeout=300)
+    if rc != 0:
+        raise RuntimeError(f"fresh evaluation process failed ({rc}): {err.decode()[-800:]}")
+    return json.loads(out.decode().strip().splitlines()[-1])
+
+
+def _fresh_eval_main() -> int:
+    from kskm.ksr.validate import validate_request
+
+    obj = json.loads(sys.stdin.read())
+    req, policy = build_request(obj["bundles"], obj.get("flag", True))
+    print(json.dumps(run_impl(lambda: validate_request(req, policy))))
+    return 0
+
+
 def run(tier: str, driver_ok: bool) -> Result:
     import kskm.common.signature as sigmod
 
@@ -534,12 +790,19 @@ def run(tier: str, driver_ok: bool) -> Result:
         "independently signed (dnspython TBS); all orders of keys x signatures; single-bit flips of a key (sample / thorough: all bits of "
         "a 1024-bit key), of every signed field, of signature octets; flags/protocol/algorithm; every omission and misattribution; key set "
         "changes; own-key-only and non-canonical signing; controls on unsigned fields; multi-bundle requests through validate_request; "
-        "non-trivial = distinct bundle input"
+        "whole requests of 2..9 bundles (quick: 2,3,4,9 and one of 5..8) in ZSK-roll / same-two-keys / sliding-window / three-keys / random "
+        "layouts with keys re-appearing under one identifier and per-bundle signature times, one signature omitted / misattributed (unknown, "
+        "other key) / bit-flipped / taken from another bundle / made by another key at every (bundle position, key) pair (quick: first, second, "
+        "middle, last two positions for > 4 bundles), through validate_request and check_proof_of_possession with the model on the same "
+        "request; request pairs A then B in one process (B re-using A's identifiers: signature missing, other keys, other signers, same-tag "
+        "stranger key, A refused then B honest, B == A) with B also judged in a fresh process; non-trivial = distinct bundle / request input"
     )
     r = lib.rng("C07")
     rec = lib.VerifyRecorder().install(sigmod)
     todo: list[tuple[str, dict[str, Any], dict[str, Any], bool]] = []
     lines: list[dict[str, Any]] = []
+    todo2: list[tuple[str, dict[str, Any], dict[str, Any]]] = []  # whole requests (roll layouts, pairs); ev["line"] indexes lines2
+    lines2: list[dict[str, Any]] = []
     try:
         pool = fixture_pool()
         plans: list[tuple[str, list[tuple[Any, int]], bool]] = []
@@ -658,6 +921,21 @@ def run(tier: str, driver_ok: bool) -> Result:
                 ev = {"validate_request": impl, "records": records, "want": want, "cases": cases}
                 todo.append((f"request:{'honest' if bad_at is None else 'bad@%d/%d' % (bad_at, nb)}:validate_signatures={flag}|multi", {"bundles": cases, "flag": flag}, ev, True))
                 lines.append({"op": "validate_request", "request": request_j(req), "policy": request_policy_j(policy), "now": 0, "verify": records})
+        # ---- whole requests in ZSK-roll layouts: one signature wrong at every (bundle position, key) pair
+        for tag, bundles, want, facts in roll_stream(r, tier, pool):
+            ev = evaluate_request(rec, bundles)
+            todo2.append((tag, {"bundles": bundles, "flag": True, "facts": facts}, {"validate_request": ev["validate_request"], "check_proof_of_possession": ev["check_proof_of_possession"], "want": want, "line": len(lines2)}))
+            lines2.extend(request_lines(ev))
+        # ---- state carried between requests: A, then B in this process; B alone in a fresh process
+        pairs = pair_stream(r, tier, pool)
+        fresh = [fresh_eval_start(B) for _, _, _, B, _ in pairs]
+        for (tag, A, want_a, B, want_b), proc in zip(pairs, fresh):
+            ev_a = evaluate_request(rec, A)
+            ev_b = evaluate_request(rec, B)
+            todo2.append((tag, {"bundles": B, "flag": True, "after": A},
+                          {"validate_request": ev_b["validate_request"], "check_proof_of_possession": ev_b["check_proof_of_possession"], "want": want_b, "line": len(lines2),
+                           "first": ev_a["validate_request"], "want_first": want_a, "fresh": fresh_eval_result(proc)}))
+            lines2.extend(request_lines(ev_b))
     finally:
         rec.uninstall()
 
@@ -745,7 +1023,59 @@ def run(tier: str, driver_ok: bool) -> Result:
                     res.unsupported += 1
                 elif not same_outcome(ti, mt):
                     res.disagreement("tbs: model's to-be-signed octets != implementation's", rcase, ti, mt)
+    model2 = run_driver(lines2, exe=DRIVER) if driver_ok else [None] * len(lines2)
+    for tag, case, ev in todo2:
+        judge_request(res, tag, case, ev, model2[ev["line"] : ev["line"] + 2])
     return res
+
+
+def judge_request(res: Result, tag: str, case: dict[str, Any], ev: dict[str, Any], models: list[Any]) -> None:
+    """a whole request (roll layout, or B of a pair): /repo vs construction, independent oracle, model — and, for pairs, a fresh process"""
+    res.count(case)
+    kind = tag.split("|")[0].split(":")
+    stream = kind[0]
+    res.bump("kind:" + ":".join(kind[:2]))
+    res.bump("plan:" + (tag.split("|")[1].rsplit("/", 2)[0] if "|" in tag else "pair"))
+    res.bump("bundles-per-request:" + str(len(case["bundles"])))
+    facts = case.get("facts") or {}
+    if "bundle" in facts:
+        res.bump(f"roll:{kind[1]}:" + ("same-key-signed-correctly-in-an-earlier-bundle" if facts["same_key_signed_correctly_earlier"] else "key's-first-bundle"))
+        if kind[1] == "omit" and facts["same_key_signed_correctly_earlier"] and facts["bundle_holds_other_keys_too"]:
+            res.bump("roll:omit:after-earlier-correct-signature:other-signatures-remain")
+    want = ev["want"]
+    indep = all(independent_accepts(c) for c in case["bundles"])
+    rcase = {"tag": tag, **case}
+    res.bump("impl:" + ("accept" if "ok" in ev["validate_request"] else next(iter(ev["validate_request"].values()))))
+    if len(res.samples) < 7 and kind[1] in ("omit", "B-lacks-a-signature-A-had") and not any(s.get("tag", "").split(":")[0] == stream for s in res.samples):
+        res.sample({"tag": tag, "facts": facts, "bundles": [{"keys": [k["id"] for k in b["keys"]], "signatures_by": [s["id"] for s in b["sigs"]]} for b in case["bundles"]],
+                    "impl": {k: ev[k] for k in ("validate_request", "check_proof_of_possession", "fresh", "first") if k in ev}, "model": models, "expected_accept": want, "independent_oracle_accepts": indep}, limit=7)
+    if indep != want:
+        res.violation("harness inconsistency: independent oracle and construction disagree (generator or oracle wrong)", rcase, key=f"oracle:{stream}:{kind[1]}", expected_accept=want, independent_accepts=indep)
+    for name in ("validate_request", "check_proof_of_possession"):
+        got = ev[name]
+        if ("ok" in got) != want or ("ok" in got) != indep:
+            res.violation(
+                f"{name}: " + ("an honestly generated request is rejected" if want else "a request with a missing / misattributed / altered signature in one bundle is accepted")
+                + (" (after another request was validated in the same process)" if "after" in case else ""),
+                rcase, key=f"{stream}:{kind[1]}", impl=got, expected_accept=want, independent_accepts=indep, facts=facts,
+            )
+        elif "ok" not in got and got != {"violation": "bundlePop"} and "error" not in got:
+            res.violation(f"{name}: a proof-of-possession failure is reported as another rule's violation", rcase, key=f"{stream}:class", impl=got)
+    if "after" in case:
+        if ("ok" in ev["first"]) != ev["want_first"]:
+            res.violation("validate_request: verdict on request A of a pair differs from the proof-of-possession property", {"tag": tag, "bundles": case["after"], "flag": True}, key="pair:first", impl=ev["first"], expected_accept=ev["want_first"])
+        if ev["fresh"] != ev["validate_request"]:
+            res.violation("validate_request: the verdict on a request depends on what the process validated before (differs from a fresh process' verdict)",
+                          rcase, key=f"pair:state:{kind[1]}", impl=ev["validate_request"], fresh_process=ev["fresh"], expected_accept=want)
+        elif ("ok" in ev["fresh"]) != want:
+            res.violation("validate_request (fresh process): verdict differs from the proof-of-possession property", rcase, key=f"pair:fresh:{kind[1]}", impl=ev["fresh"], expected_accept=want)
+    for name, m in zip(("validate_request", "check_proof_of_possession"), models):
+        if m is None:
+            continue
+        if lib.is_unsupported(m):
+            res.disagreement(f"{name}: the model asked the verifier about octets /repo never verified (record miss)", rcase, ev[name], m)
+        elif not same_outcome(ev[name], m):
+            res.disagreement(f"{name} on a whole request: model != implementation", rcase, ev[name], m)
 
 
 def replay(obj: dict[str, Any]) -> Any:
@@ -753,6 +1083,23 @@ def replay(obj: dict[str, Any]) -> Any:
 
     v = obj.get("violation") or obj.get("disagreement") or {}
     case = v["case"]
+    if "keys" not in case and "bundles" in case and all("inc" in b for b in case["bundles"]):
+        rec = lib.VerifyRecorder().install(sigmod)
+        try:
+            first = evaluate_request(rec, case["after"])["validate_request"] if "after" in case else None
+            ev = evaluate_request(rec, case["bundles"], case.get("flag", True))
+        finally:
+            rec.uninstall()
+        ms = run_driver(request_lines(ev), exe=DRIVER)
+        out = {"tag": case.get("tag"), "facts": case.get("facts"),
+               "bundles": [{"keys": [k["id"] for k in b["keys"]], "signatures_by": [s["id"] for s in b["sigs"]]} for b in case["bundles"]],
+               "implementation": {"validate_request": ev["validate_request"], "check_proof_of_possession": ev["check_proof_of_possession"]},
+               "model": {"validate_request": ms[0], "check_proof_of_possession": ms[1]},
+               "independent_oracle_accepts_each_bundle": [independent_accepts(c) for c in case["bundles"]]}
+        if "after" in case:
+            out["request_A_validated_first"] = first
+            out["fresh_process"] = fresh_eval_result(fresh_eval_start(case["bundles"], case.get("flag", True)))
+        return out
     if "keys" not in case:
         return {"case": case, "recorded": {k: v.get(k) for k in ("impl", "model", "expected_accept", "independent_accepts")}}
     rec = lib.VerifyRecorder().install(sigmod)
@@ -769,3 +1116,7 @@ def replay(obj: dict[str, Any]) -> Any:
         "expected_accept_by_construction": expected_accept(case.get("tag", "")),
         "independent_oracle_accepts": independent_accepts(case),
     }
+
+
+if __name__ == "__main__" and "--fresh-eval" in sys.argv:
+    sys.exit(_fresh_eval_main())
